@@ -256,6 +256,9 @@ static int __verify_config_post(jwt_t *jwt, const jwt_config_t *config,
 		jwt_write_error(jwt, "Config and key alg does not match");
 		return 1;
 		// LCOV_EXCL_STOP
+	} else if (config->alg != jwt->alg) {
+		jwt_write_error(jwt, "Config alg does not match JWT");
+		return 1;
 	}
 
 	return 0;
